@@ -541,6 +541,10 @@ class Engine(object):
         c = self.coerce(val, ty, node)
         if c is not None:
             return c
+        if isinstance(ty, TList) and isinstance(val.ty, (TDict, TList)) and not val.t:
+            # an EMPTY container literal ([] or {}) stored into a slot modelled as a sequence: for iteration, len() and
+            # truthiness -- the only uses of such a slot -- an empty dict and an empty list are indistinguishable
+            return self.L_empty(ty.elem)
         if val.ty == VAL:
             # dynamically typed value stored into a typed slot: the declared sort is an
             # obligation (A-TYPES is checked at every store inside functions under contract)
